@@ -1,6 +1,7 @@
 package gen
 
 import (
+	"go/token"
 	"sort"
 
 	"github.com/dave/jennifer/jen"
@@ -9,6 +10,26 @@ import (
 )
 
 var maximumPositionalArguments = 5
+
+// names which method arguments can't have: they are shadowing imported packages or method receiver
+var reservedArgumentNames = map[string]string{
+	"errors":  "errs",
+	"reflect": "reflectArg",
+	"tl":      "tlArg",
+	"c":       "cArg",
+}
+
+// argumentName returns name of method argument for schema parameter
+func argumentName(name string) string {
+	res := goify(name, false)
+	if replacement, ok := reservedArgumentNames[res]; ok {
+		return replacement
+	}
+	if token.IsKeyword(res) {
+		return res + "Arg"
+	}
+	return res
+}
 
 func (g *Generator) generateMethods(f *jen.File) {
 	sort.Slice(g.schema.Methods, func(i, j int) bool {
@@ -112,7 +133,7 @@ func (g *Generator) generateArgumentsForMethod(obj *tlparser.Method) []jen.Code 
 	items := make([]jen.Code, 0)
 
 	for i, p := range obj.Parameters {
-		item := jen.Id(goify(p.Name, false))
+		item := jen.Id(argumentName(p.Name))
 		if i == len(obj.Parameters)-1 || p.Type != obj.Parameters[i+1].Type || p.IsVector != obj.Parameters[i+1].IsVector {
 			if p.Type == "bitflags" {
 				continue // ну а зачем?
@@ -141,7 +162,7 @@ func (g *Generator) generateMethodArgumentForMakingRequest(obj *tlparser.Method)
 			continue // ну а зачем?
 		}
 
-		dict[jen.Id(goify(p.Name, true))] = jen.Id(goify(p.Name, false))
+		dict[jen.Id(goify(p.Name, true))] = jen.Id(argumentName(p.Name))
 	}
 
 	return jen.Op("&").Id(goify(obj.Name, true) + "Params").Values(dict)
